@@ -120,8 +120,14 @@ func NewOpEngine(p *core.Program, a *spec.Anchors) *OpEngine {
 	return e
 }
 
+// pure generic helper packages of the standard library whose bodies are interpreted like module code
+var enterStd = map[string]bool{"slices": true, "cmp": true, "maps": true}
+
 func (e *OpEngine) enter(fn *ssa.Function) bool {
 	if !core.InModule(fn) {
+		if pp := core.PkgPathOf(fn); enterStd[pp] && fn.Blocks != nil {
+			return true
+		}
 		return false
 	}
 	e.Funcs[core.FuncKey(fn)] = true
